@@ -138,6 +138,8 @@ pub fn write_jsonl_par<T: Serialize + Send + Sync>(
         .try_for_each(|(i, p)| -> Result<()> {
             let start = i * chunk;
             let end = ((i + 1) * chunk).min(n);
+            #[cfg(feature = "verif-hooks")]
+            crate::verif_hooks::on_shard("write_jsonl_par", i, start, end);
             let f = File::create(p).with_context(|| format!("create {}", p.display()))?;
             let mut w = BufWriter::new(f);
             for item in &data[start..end] {
